@@ -8,6 +8,7 @@ mod tok;
 mod c06;
 mod c07;
 mod c19;
+mod img;
 
 fn main() {
     // silence panic messages of caught panics
@@ -27,6 +28,7 @@ fn main() {
         "C06" => c06::run(seed, n, outdir, corpus),
         "C07" => c07::run(seed, n, outdir, corpus),
         "C19" => c19::run(seed, n, outdir, corpus),
+        "C05" | "C09" => img::run(prop, seed, n, outdir, corpus),
         "TOK" | "C01" | "C02" | "C03" | "C04" | "C08" | "C12" | "C13" => tok::run(prop, seed, n, outdir, corpus),
         _ => {
             eprintln!("unknown property {}", prop);
